@@ -93,19 +93,7 @@ def r_C08_C34(root):
         positional = c.func.attr == "insert" and _depends_on(c.args[0], R.v_ref, loop)
         if defer and not positional:
             out.append(Finding("C08", "C08.a", M, "ReferenceResolver.resolve_one_step", ast.unparse(c), "list reference stored in resolution order although references can be postponed", witness="refs+=[T]; first reference postponed once"))
-    # C34.a / C34.e field roles of RefRulePosition
-    rp = next((c for c in calls(loop) if callee_name(c) == "RefRulePosition"), None)
-    if rp is None: raise AnalysisError("RefRulePosition construction not found")
-    kw = {k.arg: k.value for k in rp.keywords}
-    ROLE = {"ref_pos_start": ("crossref", ["position"]), "ref_pos_end": ("crossref", None), "def_pos_start": ("resolved", ["_tx_position"]), "def_pos_end": ("resolved", ["_tx_position_end"]), "def_file_name": ("resolved", ["_tx_filename"])}
-    for f, (owner, attrs) in ROLE.items():
-        inst += 1
-        roots = {x.id for x in ast.walk(kw[f]) if isinstance(x, ast.Name)} - {"get_model", "len"}
-        at = [x.attr for x in ast.walk(kw[f]) if isinstance(x, ast.Attribute)]
-        if roots != {owner}:
-            out.append(Finding("C34", "C34.a" if f == "ref_pos_end" else "C34.e", M, "ReferenceResolver.resolve_one_step", "%s=%s" % (f, ast.unparse(kw[f])), "%s must derive from the %s only, derives from %s" % (f, owner, sorted(roots))))
-        elif attrs is not None and at[-1:] != attrs and not (f == "def_file_name" and at == ["_tx_filename"]):
-            out.append(Finding("C34", "C34.e", M, "ReferenceResolver.resolve_one_step", "%s=%s" % (f, ast.unparse(kw[f])), "%s must be the %s's %s" % (f, owner, attrs[0])))
+    # C34.a / C34.e (which offsets a recorded reference carries) are decided by evaluation: C34.h, sa/rules/cres.py
     # C34.b sortedness: appended in resolution order while deferral exists -> must be sorted before exposure
     drv = find(load(root, M), "parse_tree_to_objgraph"); inst += 1
     sorts = [c for c in calls(drv) if (callee_name(c) == "sort" and "pos_crossref_list" in ast.unparse(c.func)) or (callee_name(c) == "sorted" and "pos_crossref_list" in ast.unparse(c))]
